@@ -84,7 +84,7 @@ def handle (op : String) (args : List String) : String :=
         let (forest, rest) := build (2 * rows.length + 2) 0 rows
         if rest.isEmpty then "ok " ++ Hex.enc (printData forest) else "err BadRows"
   | "spec", [h] =>
-    -- the declarative specification (metadata: the `@` member of containers and list entries; not yet `@name` of leaves / leaf-lists)
+    -- the declarative specification (metadata: `@` of containers and list entries, `@name` of leaves; not yet the `@name` array of leaf-lists)
     match Hex.dec h with
     | none => "err BadHex"
     | some b =>
@@ -94,7 +94,7 @@ def handle (op : String) (args : List String) : String :=
       | some rows =>
         let (forest, rest) := build (2 * rows.length + 2) 0 rows
         if !rest.isEmpty then "err BadRows"
-        else if rows.any (fun r => !r.metas.isEmpty && (r.kind == .leaf || r.kind == .leaflist)) then "err HasMeta"
+        else if rows.any (fun r => !r.metas.isEmpty && r.kind == .leaflist) then "err HasMeta"
         else "ok " ++ Hex.enc (specData forest)
   | "jcheck", [h, hp] =>
     -- trees WITH metadata: the state-free expectation `jsonViewM` (RFC 7951 / 7952 sec. 5.2) against what the independent reader
